@@ -11,6 +11,7 @@ import (
 	"sort"
 	"strings"
 	"sync"
+	"time"
 
 	"verifsim/kernel"
 
@@ -262,6 +263,25 @@ func runC19(k *kernel.K) {
 	if w.Chance(1, 3) {
 		k.Probe("slow_sink")
 		sink.gate = func(n int) { k.Park(fmt.Sprintf("sink write#%06d", n)) }
+		// ... and a write of the sink may take a while on the clock, too
+		slowClock := 3
+		k.AddSource(func(add func(kernel.Action)) {
+			if slowClock == 0 || k.Draining {
+				return
+			}
+			for _, g := range k.Parked() {
+				if strings.HasPrefix(g.Name, "sink write#") {
+					add(kernel.Action{Key: "the sink's write takes a second", W: 1, Class: kernel.Clock, Do: func() {
+						slowClock--
+						k.Probe("sink_write_takes_simulated_time")
+						k.FastAdvance = true
+						k.Advance(time.Second)
+						k.FastAdvance = false
+					}})
+					return
+				}
+			}
+		})
 	}
 	var mu sync.Mutex
 	for _, m := range msgs {
